@@ -41,7 +41,7 @@ PROPS = {
     },
     "C14": {
         "level": "exploration",
-        "level_text": "every model server / memory device discovered from the source tree that exposes a single-register Get/Update/Pull triple is put behind wrapper -> router -> wrapper (all real code, free-running between the two wrappers) and driven with protoreflect-built random updates, update masks (valid, invalid, nil) and read masks, with 0-2 open streams whose readers keep up; relational register laws at true quiescence after every RPC; measured coverage of the discovered triples",
+        "level_text": "every model server / memory device discovered from the source tree that exposes a single-register Get/Update/Pull triple is put behind wrapper -> router -> wrapper (all real code, free-running between the two wrappers) and driven with protoreflect-built random updates, update masks (valid, invalid, nil) and read masks, with 0-2 open streams whose readers keep up; relational register laws at true quiescence after every RPC; a stream opened while another client's Update is in progress (handler goroutines scheduled by the simulator) must have arrived at what Get returns once at rest; measured coverage of the discovered triples",
         "level_note": TRUST + "; servers whose constructor or request shape the discovery does not understand are listed in the evidence as not covered; float fields count as changed only from a difference of 1.0 (the models' tolerances are their business); tweens are not advanced between an Update and the following Get",
         "technique": "deterministic simulation (client task, fake clock, synctest quiescence) of the full wrapper/router/wrapper/server stack with relational read-your-writes oracles over discovered Get/Update/Pull triples",
         "rule": ("(server, triple) from the decision tape, then 1-6 RPCs (Update with random message and mask kind, Get with read mask, open Pull updates-only or not); every run is non-trivial (client, server and stream readers); "
@@ -173,7 +173,7 @@ PROPS = {
     },
     "C08": {
         "level": "exploration",
-        "level_text": "seeded exploration of write histories x include predicates given as truth tables over (id, value or absent) x backpressure on/off x updates-only, consumer pace decided by the scheduler; fold(stream) == List(WithInclude) == model filter after every phase, and the exact per-event decision table under backpressure",
+        "level_text": "seeded exploration of write histories x include predicates given as truth tables over (id, value or absent) x backpressure on/off x updates-only, consumer pace decided by the scheduler; fold(stream) == List(WithInclude) == model filter after every phase, and the exact per-event decision table under backpressure; a quarter of the runs with an equivalence that ignores the field the predicate reads (boundary crossings between equivalent values must still be delivered; views compared up to the equivalence there)",
         "level_note": TRUST + "; reference model of appendix A; where the predicate is true for absent values the exact event is not prescribed by the statement and only folding is checked",
         "technique": "deterministic simulation (seeded scheduler, consumer pace = schedule) + folded-view and per-event decision-table oracles from an executable reference model",
         "rule": RULE_SCHED,
